@@ -19,7 +19,7 @@ UNIMOCK_SAFE = dict(
     deps_kinds=["generic_ref"] * 3 + ["impl_ref"] * 2 + ["no_deps"],
     rets=["owned", "owned", "unit"], p_const=0.0, p_generic_param=0.0, p_unsafe=0.0, p_extern=0.0,
     types=["i32", "i32", "u8", "bool", "str", "String", "tup", "N", "N2", "S", "opt", "arr"],
-    allow_sink=False,   # (the sink parameter needs `HasName` of the deps, which Unimock does not implement)
+    allow_sink=False, allow_raw_fn_names=False,   # (unimock derives item names from the fn names)   # (the sink parameter needs `HasName` of the deps, which Unimock does not implement)
 )
 
 
